@@ -160,6 +160,23 @@ def attr_dispatch(side, v):
         return getattr(b, name)
     return "?"
 
+def prod(xs, ys):
+    from itertools import product
+    out = []
+    for a, b in product(xs, ys):
+        out.append((a, b))
+    return out
+
+def walrus(d, k):
+    out = []
+    if (v := d.get(k)) is not None:
+        out.append(v)
+    elif (w := len(d)) > 1 and not (z := k in out):
+        out.append((w, z))
+    else:
+        out.append("none")
+    return out
+
 def make(container):
     def call(v):
         container.append(v)
@@ -190,6 +207,8 @@ INPUTS = {
     "require_form": [(1,), (3,)],
     "all_map": [([1, 2],), ([0, 1],), ([],)],
     "use_factory": [(1,), (2,)],
+    "walrus": [({"a": 1}, "a"), ({"a": 1, "b": 2}, "z"), ({}, "z")],
+    "prod": [([1, 2], ["a", "b"]), ([], [1]), ([1], [])],
     "dispatch": [("a", []), ("b", []), ("z", [])],
     "attr_dispatch": [("l", 4), ("r", 4), ("x", 4)],
 }
@@ -226,7 +245,7 @@ def main():
                 print("transform self-test: %s%r gives %r before and %r after the loader's rewrites" % (name, args, a, b))
     # the cases must actually exercise the rewrites
     expect_rewritten = {"search_break_carry", "continue_rows", "nested_rows", "break_no_carry", "reflect", "dict_items", "two_way", "two_way_stmt",
-                        "starred", "ifexp_iter", "bulk", "raise_form", "require_form", "all_map", "dispatch", "attr_dispatch"}
+                        "starred", "ifexp_iter", "bulk", "raise_form", "require_form", "all_map", "dispatch", "attr_dispatch", "prod", "walrus"}
     for name in sorted(expect_rewritten):
         f0 = next(n for n in ast.walk(tree0) if isinstance(n, ast.FunctionDef) and n.name == name)
         f1 = next(n for n in ast.walk(ast.parse(src1)) if isinstance(n, ast.FunctionDef) and n.name == name)
